@@ -332,14 +332,26 @@ pub fn concurrent_attempts(input: &Value) -> Value {
 			// `stagger_ms[i]`: attempt i starts that much later (renewals that come due at different
 			// times, or a retry after a pause)
 			let late = input["stagger_ms"][i].as_u64().unwrap_or(0);
+			// `retries`: a certificate whose attempt failed is tried again by the same process (as the
+			// daemon does after its retry delay), at most that many times
+			let retries = input["retries"].as_u64().unwrap_or(0);
 			futs.push(WithTask {
 				task: i,
 				fut: Box::pin(async move {
 					if late > 0 {
 						tokio::time::sleep(Duration::from_millis(late)).await;
 					}
-					let r = request_certificate(cert, acc, ept).await;
-					(i, r.map_err(|e| e.message))
+					let mut errors: Vec<String> = vec![];
+					loop {
+						match request_certificate(cert, acc.clone(), ept.clone()).await {
+							Ok(()) => return (i, Ok(()), errors),
+							Err(e) => errors.push(e.message),
+						}
+						if errors.len() as u64 > retries {
+							let last = errors.last().cloned().unwrap_or_default();
+							return (i, Err(last), errors);
+						}
+					}
 				}),
 			});
 		}
@@ -353,7 +365,9 @@ pub fn concurrent_attempts(input: &Value) -> Value {
 		let mut all = false;
 		loop {
 			match tokio::time::timeout(overall, futs.next()).await {
-				Ok(Some((i, r))) => results.push(json!({"task": i, "ok": r.is_ok(), "error": r.err()})),
+				Ok(Some((i, r, errors))) => {
+					results.push(json!({"task": i, "ok": r.is_ok(), "error": r.err(), "errors": errors}))
+				}
 				Ok(None) => {
 					all = true;
 					break;
